@@ -414,4 +414,38 @@ example : (setPeerMaj23 (new 5 0 2 vals30) 9 bA).2 = .ok ∧
     (setPeerMaj23 (setPeerMaj23 (new 5 0 2 vals30) 9 bA).1 9 bA').2 = .conflict ∧
     (setPeerMaj23 (new 5 0 2 vals30) 9 bA).1.maj23 = none := by decide
 
+/-- claims alone (any number, by any peers, for any block ids) from any state: tally, counted
+votes, bit array and majority stay exactly as they were -/
+theorem claims_only_frame (sv : SigCheck) (claims : List (Nat × BlockId)) (s : VoteSet) :
+    (run sv s (claims.map fun c => Op.peer c.1 c.2)).sum = s.sum ∧
+    (run sv s (claims.map fun c => Op.peer c.1 c.2)).votes = s.votes ∧
+    (run sv s (claims.map fun c => Op.peer c.1 c.2)).bits = s.bits ∧
+    (run sv s (claims.map fun c => Op.peer c.1 c.2)).maj23 = s.maj23 := by
+  induction claims generalizing s with
+  | nil => simp [run]
+  | cons c cs ih =>
+    have f := peerMaj23_frame s c.1 c.2
+    have := ih (setPeerMaj23 s c.1 c.2).1
+    simp only [run, List.map_cons, List.foldl_cons, apply] at this ⊢
+    refine ⟨this.1.trans f.1, this.2.1.trans f.2.1, this.2.2.1.trans f.2.2.1, this.2.2.2.trans f.2.2.2.1⟩
+
+/-- no amount of peer claims yields a quorum: a fresh vote set that has only heard claims reports
+no +2/3 majority, no +2/3-any (for a non-empty good validator set) and cannot make a commit -/
+theorem claims_only_no_quorum (sv : SigCheck) (h r t : Nat) (vals : Vals)
+    (claims : List (Nat × BlockId)) :
+    twoThirdsMajority (run sv (new h r t vals) (claims.map fun c => Op.peer c.1 c.2)) = none ∧
+    (run sv (new h r t vals) (claims.map fun c => Op.peer c.1 c.2)).sum = 0 ∧
+    makeCommit (run sv (new h r t vals) (claims.map fun c => Op.peer c.1 c.2)) = none := by
+  have f := claims_only_frame sv claims (new h r t vals)
+  refine ⟨by simpa [twoThirdsMajority, new] using f.2.2.2, by simpa [new] using f.1, ?_⟩
+  have hm : (run sv (new h r t vals) (claims.map fun c => Op.peer c.1 c.2)).maj23 = none := by
+    simpa [new] using f.2.2.2
+  unfold makeCommit
+  rw [hm]
+  split <;> rfl
+
+-- non-vacuity: three claims by two peers on a concrete precommit set
+example : (run svSome (new 5 0 2 vals30) [.peer 1 bA, .peer 2 bA', .peer 1 bA']).peerMaj.length = 2 ∧
+    makeCommit (run svSome (new 5 0 2 vals30) [.peer 1 bA, .peer 2 bA', .peer 1 bA']) = none := by decide
+
 end KV.Props.C02
